@@ -104,7 +104,7 @@ theorem pushdown_right_row {lk rk : List Nat} {p : Pred} {a b x : Tuple}
   rcases joinRow_some e with ⟨hrk, rfl⟩ | rfl
   · subst hrk
     rw [List.getElem?_append_right (hc c hcc)]
-    simp [sortNat, sortBy, reinsert]
+    simp [sortNat, sortNat0, dedupAdj, sortBy, reinsert]
   · rw [List.getElem?_append_right (hc c hcc)]
     exact excluding_reinsert b rk hn _
 
